@@ -109,6 +109,16 @@ func chase(v ssa.Value) []chainInfo {
 			case *ssa.FieldAddr:
 				st, name, _, _ := fieldOf(a)
 				val(a.X, pushF(cur, stName(st)+"."+name), depth+1)
+				// a reference field loaded from a local struct that was filled by `tmp := *src`: the reference is src's
+				if al, isAl := a.X.(*ssa.Alloc); isAl && !seen[al] {
+					seen[al] = true
+					for _, sv := range storesTo(al) {
+						if u, isU := sv.(*ssa.UnOp); isU && u.Op == token.MUL {
+							val(u.X, pushF(cur, stName(st)+"."+name), depth+1)
+						}
+					}
+					delete(seen, al)
+				}
 			case *ssa.IndexAddr:
 				val(a.X, cur, depth+1)
 			case *ssa.Alloc:
@@ -344,6 +354,17 @@ func (o *ownership) chainOwned(c chainInfo) string {
 	for _, f := range c.fields {
 		if o.linkFields[f] {
 			return "reached through the schema link " + f
+		}
+	}
+	// a local struct filled by `tmp := *p` with p in schema memory: its own cells are the local's, but every reference
+	// it holds (child lists, nested pointers) still points into the schema — a write through one of them is a schema write
+	if a, ok := c.root.(*ssa.Alloc); ok && len(c.fields) > 0 {
+		for _, sv := range storesTo(a) {
+			if u, isU := sv.(*ssa.UnOp); isU && u.Op == token.MUL {
+				if why := o.ownedReason(u.X); why != "" {
+					return "reached through " + c.fields[len(c.fields)-1] + " of a shallow copy of memory " + why
+				}
+			}
 		}
 	}
 	// types passed through, excluding the root when it is a fresh allocation
